@@ -731,8 +731,8 @@ fn pipe_strat() -> impl Strategy<Value = PipeCase> {
 
 pub fn run(ctx: &RunCtx) -> Vec<PartOutcome> {
     vec![
-        explore(ctx, "bursts", ctx.tier.pick(2_000, 40_000), burst_strat, check_burst),
-        explore(ctx, "pipelines", ctx.tier.pick(1_500, 25_000), pipe_strat, check_pipeline),
+        explore_with(ctx, "bursts", ctx.tier.pick(2_000, 40_000), 24, burst_strat, check_burst),
+        explore_with(ctx, "pipelines", ctx.tier.pick(1_500, 25_000), 300, pipe_strat, check_pipeline),
     ]
 }
 
